@@ -10,6 +10,8 @@ import (
 	"math/rand"
 	"runtime"
 	"sync"
+	"sync/atomic"
+	"time"
 
 	"github.com/scionproto/scion/gateway/dataplane"
 	"github.com/scionproto/scion/private/ringbuf"
@@ -29,6 +31,8 @@ type run struct {
 
 var cur *run
 var curRing *ringbuf.Ring
+var progress atomic.Int64 // entries actually transferred (or close): what the watchdog looks at
+var abort atomic.Bool     // set by the watchdog: the polling reader gives up
 
 func pktID(b []byte) int { return int(binary.BigEndian.Uint32(b)) }
 
@@ -39,6 +43,9 @@ func hook(r *ringbuf.Ring, e ringbuf.VerifEvent) {
 	ru := cur
 	ru.mu.Lock()
 	defer ru.mu.Unlock()
+	if e.Ret > 0 || e.Op == "close" {
+		progress.Add(1)
+	}
 	switch e.Op {
 	case "write":
 		id := pktID(e.Entries[0].([]byte))
@@ -106,16 +113,52 @@ func oneTrace(w *vt.Writer, rng *rand.Rand, id int) {
 			}
 			if n == 0 {
 				empty++
-				runtime.Gosched()
+				if abort.Load() {
+					break
+				}
+				time.Sleep(time.Millisecond) // polling reader: do not flood the trace
 			}
 		}
 		close(done)
 	}()
-	wg.Wait()
-	pr.Close()
-	<-done
+	// A lost wake-up in the ring would park a writer (or the reader) forever: wait with a watchdog on
+	// the hook's event counter; no event for 10 s while callers are still inside = stuck (an event
+	// for which the specification has no action), and no further traces are produced.
+	stuck := false
+	waitOrStuck := func(ch <-chan struct{}) bool {
+		last, lastT := int64(-1), time.Now()
+		for {
+			select {
+			case <-ch:
+				return true
+			case <-time.After(50 * time.Millisecond):
+			}
+			n := progress.Load()
+			if n != last {
+				last, lastT = n, time.Now()
+			} else if time.Since(lastT) > 10*time.Second {
+				return false
+			}
+		}
+	}
+	wdone := make(chan struct{})
+	go func() { wg.Wait(); close(wdone) }()
+	abort.Store(false)
+	if !waitOrStuck(wdone) {
+		stuck = true
+		abort.Store(true)
+		time.Sleep(20 * time.Millisecond)
+	} else {
+		pr.Close()
+		if !waitOrStuck(done) {
+			stuck = true
+		}
+	}
 	ru.mu.Lock()
 	defer ru.mu.Unlock()
+	if stuck {
+		stuckFlag = true
+	}
 	w.Emit(vt.M{"ev": "reset", "cap": dataplane.VerifPktRingSize, "batch": dataplane.VerifPktRingBatch, "id": id,
 		"writers": nw, "per": per})
 	idx := make([]int, nw+1)
@@ -129,8 +172,14 @@ func oneTrace(w *vt.Writer, rng *rand.Rand, id int) {
 		}
 		w.Emit(e.m)
 	}
+	if stuck {
+		w.Emit(vt.M{"ev": "stuck"})
+		return
+	}
 	w.Emit(vt.M{"ev": "end"})
 }
+
+var stuckFlag bool
 
 func main() {
 	out := flag.String("out", "trace.ndjson", "output trace")
@@ -143,6 +192,9 @@ func main() {
 	for i := 0; i < *n; i++ {
 		runtime.GOMAXPROCS(procs[i%len(procs)])
 		oneTrace(w, rng, i)
+		if stuckFlag {
+			break // goroutines of the stuck trace are still parked inside the ring
+		}
 	}
 	w.Close()
 	fmt.Printf("traces=%d events=%d\n", *n, w.N)
